@@ -131,35 +131,17 @@ def _tokenise_within_budget(s, seconds=6):
         signal.signal(signal.SIGALRM, old)
 
 
-def observe(s, intent=None, styles=None, seps=None, lead="", trail="", full_run=False):
-    """one event for TokenizerTrace"""
+def _fill(ev, s, intent, full_run):
     from clikit.args import ArgvArgs, StringArgs
     from clikit.args.token_parser import TokenParser
 
-    ev = {
-        "s": chars(s),
-        "hasIntent": intent is not None,
-        "quoteKnown": styles is not None,
-        "intent": [chars(t) for t in intent] if intent is not None else [],
-        "styles": styles or [],
-        "seps": [chars(x) for x in (seps or [])],
-        "lead": chars(lead),
-        "trail": chars(trail),
-        "hasArgv": False,
-        "argv": {"toks": [], "opt": []},
-        "outStr": "",
-        "outArgv": "",
-    }
     try:
-        sa = _tokenise_within_budget(s) if len(s) > 20 else StringArgs(s)
+        sa = StringArgs(s)
         toks0, opt0 = [chars(t) for t in sa.tokens], [chars(t) for t in sa.option_tokens]
         other = StringArgs("zz 'q q' -- w")  # tokenising something else must not disturb the first object
         TokenParser().parse("k k")
         ev["obs"] = {"kind": "ok", "cls": "", "toks": toks0, "opt": opt0, "toksAfter": [chars(t) for t in sa.tokens]}
         del other
-    except Budget:
-        ev["obs"] = {"kind": "exc", "cls": "DoesNotTerminate", "toks": [], "opt": [], "toksAfter": []}
-        sa = None
     except Exception as e:  # noqa: every exception kind is an observation
         ev["obs"] = {"kind": "exc", "cls": type(e).__name__, "toks": [], "opt": [], "toksAfter": []}
         sa = None
@@ -185,6 +167,39 @@ def observe(s, intent=None, styles=None, seps=None, lead="", trail="", full_run=
             ev["outArgv"] += "|exc:" + type(e).__name__
         if full_run:
             ev["outStr"] += run_outcome(StringArgs(s)) if sa is not None else "exc"
+
+
+def observe(s, intent=None, styles=None, seps=None, lead="", trail="", full_run=False):
+    """one event for TokenizerTrace"""
+    from clikit.args import ArgvArgs, StringArgs
+    from clikit.args.token_parser import TokenParser
+
+    ev = {
+        "s": chars(s),
+        "hasIntent": intent is not None,
+        "quoteKnown": styles is not None,
+        "intent": [chars(t) for t in intent] if intent is not None else [],
+        "styles": styles or [],
+        "seps": [chars(x) for x in (seps or [])],
+        "lead": chars(lead),
+        "trail": chars(trail),
+        "hasArgv": False,
+        "argv": {"toks": [], "opt": []},
+        "outStr": "",
+        "outArgv": "",
+    }
+    # every call into the library runs under one time budget: a scan that does not terminate is an observation
+    from harness.engine import budget
+
+    if _TIMEOUTS[0] >= 3:   # the verdict is settled: the remaining inputs are not run (each would cost a whole budget)
+        ev["obs"] = {"kind": "exc", "cls": "NotRun", "toks": [], "opt": [], "toksAfter": []}
+        return ev
+    try:
+        budget.call(_fill, ev, s, intent, full_run, seconds=8)
+    except budget.Budget:
+        _TIMEOUTS[0] += 1
+        ev["obs"] = {"kind": "exc", "cls": "DoesNotTerminate", "toks": [], "opt": [], "toksAfter": []}
+        ev["outStr"] += "|does-not-terminate"
     return ev
 
 
@@ -225,6 +240,8 @@ def run(ctx):
             s = text(r["s"])
             intent = [text(t) for t in r["intent"]] if with_intent else None
             ev = observe(s, intent, full_run=full_run)
+            if ev["obs"]["cls"] == "NotRun":
+                continue
             exp_ok = not r["err"]
             same = (
                 ev["obs"]["kind"] == ("ok" if exp_ok else "exc")
@@ -331,8 +348,14 @@ def run(ctx):
         traces.append([ev])
         cases.append({"kind": "tlc-behaviour", "s": text(ev["s"])})
     ctx.extra["tlc_behaviours_not_reproduced"] = len(mism)
+    keep = [k for k, t in enumerate(traces) if t[0]["obs"]["cls"] != "NotRun"]
+    traces, cases = [traces[k] for k in keep], [cases[k] for k in keep]
+    keep = [k for k, t in enumerate(deep_traces) if t[0]["obs"]["cls"] != "NotRun"]
+    deep_traces, deep_cases = [deep_traces[k] for k in keep], [deep_cases[k] for k in keep]
+    ctx.extra["inputs_not_terminating"] = _TIMEOUTS[0]
     ctx.validate(SPEC, "TokenizerTrace", "TokenizerTrace.cfg", traces, cases=cases, name="recorded-calls")
-    ctx.validate(SPEC, "TokenizerTrace", "TokenizerTrace.cfg", deep_traces, cases=deep_cases, name="deep-nesting", chunk=3, timeout=1500)
+    if deep_traces:
+        ctx.validate(SPEC, "TokenizerTrace", "TokenizerTrace.cfg", deep_traces, cases=deep_cases, name="deep-nesting", chunk=3, timeout=1500)
     ctx.sample(cases[0])
 
 
